@@ -35,6 +35,16 @@ type Obligation struct {
 	FailFn  *ssa.Function
 	Chain   []string
 	Trivial bool
+	// every caller at which a lifted requirement of this obligation fails (the first one is
+	// also in FailAt/FailFn/Proof)
+	Fails []Failure
+}
+
+// Failure is one call site that cannot establish a lifted requirement.
+type Failure struct {
+	At    ssa.Instruction
+	Fn    *ssa.Function
+	Proof string
 }
 
 // Req is a precondition of a function over its parameter-rooted atoms.
@@ -64,6 +74,10 @@ type Engine struct {
 	// fieldLen / globalLen: slice-typed struct fields and package variables whose every
 	// assignment in the program stores a value of the same constant length
 	fieldLen  map[*types.Var]int64
+	// fieldMin: integer struct fields whose every store (program-wide) is a constant; the value
+	// is the smallest constant stored, with 0 added when some function allocates the owning
+	// struct without assigning the field
+	fieldMin map[*types.Var]int64
 	globalLen map[*ssa.Global]int64
 }
 
@@ -269,7 +283,27 @@ func (e *Engine) prove(c *fnCtx, at ssa.Instruction, goal Ineq) (bool, string) {
 // holds for the phi).
 func (e *Engine) proveH(c *fnCtx, at ssa.Instruction, goal Ineq, hyp []Ineq, depth int) (bool, string) {
 	if goal.L.IsConst() {
-		return goal.L.K >= 0, "constant"
+		if goal.L.K >= 0 {
+			return true, "constant"
+		}
+		// an unreachability goal: proved when the facts that hold at this point contradict
+		// each other (the guards leading here cannot all be true)
+		pseudo := Const(0)
+		for _, g := range model.Guards(at.Block()) {
+			for _, in := range c.guardIneqs(g.Cond, g.Polarity) {
+				for a := range in.L.C {
+					pseudo.C[a] = 1
+				}
+			}
+		}
+		if len(pseudo.C) == 0 && len(hyp) == 0 {
+			return false, ""
+		}
+		facts := e.factsAt(c, at, pseudo, hyp)
+		if infeasible(append(facts, hyp...)) {
+			return true, "unreachable: the guards leading here contradict the facts"
+		}
+		return false, ""
 	}
 	facts := e.factsAt(c, at, goal.L, hyp)
 	neg := Ineq{goal.L.Scale(-1).Add(Const(-1)), "negated goal"}
@@ -437,7 +471,11 @@ func (e *Engine) Enumerate(fn *ssa.Function) []*Obligation {
 				}
 			case *ssa.TypeAssert:
 				if !x.CommaOk {
-					add(in, "typeassert", x.AssertedType.String(), Ineq{Const(-1), "unchecked type assertion"})
+					if typeGuarded(fn, x) {
+						out = append(out, &Obligation{Fn: fn, Instr: in, Kind: "typeassert", Expr: x.AssertedType.String(), Goals: []Ineq{{Const(0), "dominated by the ok edge of a checked assertion of the same value to the same type"}}})
+					} else {
+						add(in, "typeassert", x.AssertedType.String(), Ineq{Const(-1), "unchecked type assertion"})
+					}
 				}
 			case *ssa.Panic:
 				add(in, "terminator", "panic", Ineq{Const(-1), "explicit panic"})
@@ -605,6 +643,42 @@ func (e *Engine) substitute(c *fnCtx, g Ineq, callee *ssa.Function, site ssa.Cal
 	return Ineq{out, g.Why}, true
 }
 
+// liftable turns an unproved goal into a requirement over fn's parameters when possible: the
+// goal itself, its strengthening, or (for unreachability goals) the negation of the nearest
+// dominating guard that is a single inequality over the parameters.
+func (e *Engine) liftable(c *fnCtx, at ssa.Instruction, g Ineq) (Ineq, bool) {
+	if g.L.IsConst() {
+		if g.L.K >= 0 {
+			return g, false
+		}
+		// only the nearest guard: an outer guard (a loop condition, say) is not what makes the
+		// point unreachable
+		gds := model.Guards(at.Block())
+		if len(gds) == 0 {
+			return g, false
+		}
+		ins := c.guardIneqs(gds[0].Cond, gds[0].Polarity)
+		if len(ins) != 1 {
+			return g, false
+		}
+		l := ins[0].L
+		if !paramRooted(c.fn, l) {
+			if sg, ok := e.strengthenToParams(c, Ineq{l.Scale(-1).Sub(Const(1)), ""}); ok && paramRooted(c.fn, sg.L) {
+				return Ineq{sg.L, "guard of " + g.Why + " is false"}, true
+			}
+			return g, false
+		}
+		return Ineq{l.Scale(-1).Sub(Const(1)), "guard of " + g.Why + " is false"}, true
+	}
+	if paramRooted(c.fn, g.L) {
+		return g, true
+	}
+	if sg, ok := e.strengthenToParams(c, g); ok && paramRooted(c.fn, sg.L) {
+		return sg, true
+	}
+	return g, false
+}
+
 // Run enumerates and decides all obligations of the scope.
 func (e *Engine) Run(roots map[*ssa.Function]bool) {
 	var fns []*ssa.Function
@@ -632,10 +706,8 @@ func (e *Engine) Run(roots map[*ssa.Function]bool) {
 					if ok, _ := e.prove(c, ob.Instr, g); ok {
 						continue
 					}
-					if paramRooted(fn, g.L) {
-						newReqs[fn] = append(newReqs[fn], Req{G: g, Origin: ob})
-					} else if sg, ok := e.strengthenToParams(c, g); ok && paramRooted(fn, sg.L) {
-						newReqs[fn] = append(newReqs[fn], Req{G: sg, Origin: ob})
+					if lg, ok := e.liftable(c, ob.Instr, g); ok {
+						newReqs[fn] = append(newReqs[fn], Req{G: lg, Origin: ob})
 					}
 				}
 			}
@@ -701,13 +773,8 @@ func (e *Engine) Run(roots map[*ssa.Function]bool) {
 					}
 					continue
 				}
-				lg := g
-				if !paramRooted(fn, lg.L) {
-					if sg, ok := e.strengthenToParams(c, g); ok {
-						lg = sg
-					}
-				}
-				if paramRooted(fn, lg.L) && !roots[fn] && e.hasScopedCaller(fn) {
+				lg, canLift := e.liftable(c, ob.Instr, g)
+				if canLift && !roots[fn] && e.hasScopedCaller(fn) {
 					if ob.Status == Proved {
 						ob.Status = Lifted
 					}
@@ -761,16 +828,27 @@ func (e *Engine) Run(roots map[*ssa.Function]bool) {
 						if orig == nil {
 							continue
 						}
+						chain := append(append([]string{}, rq.Chain...), model.FnName(callee))
+						// reverse: outermost first
+						for i, j := 0, len(chain)-1; i < j; i, j = i+1, j-1 {
+							chain[i], chain[j] = chain[j], chain[i]
+						}
+						chain = append([]string{model.FnName(fn)}, chain...)
+						proof := "caller " + model.FnName(fn) + " cannot establish " + g.L.String() + " >= 0 (" + g.Why + ") for " + strings.Join(chain, " -> ")
+						dup := false
+						for _, f := range orig.Fails {
+							if f.Fn == fn {
+								dup = true
+							}
+						}
+						if !dup && !(orig.Status == Unproved && len(orig.Fails) == 0) {
+							orig.Fails = append(orig.Fails, Failure{At: in, Fn: fn, Proof: proof})
+						}
 						if orig.Status != Unproved {
 							orig.Status = Unproved
 							orig.FailAt, orig.FailFn = in, fn
-							chain := append(append([]string{}, rq.Chain...), model.FnName(callee))
-							// reverse: outermost first
-							for i, j := 0, len(chain)-1; i < j; i, j = i+1, j-1 {
-								chain[i], chain[j] = chain[j], chain[i]
-							}
-							orig.Chain = append([]string{model.FnName(fn)}, chain...)
-							orig.Proof = "caller " + model.FnName(fn) + " cannot establish " + g.L.String() + " >= 0 (" + g.Why + ") for " + strings.Join(orig.Chain, " -> ")
+							orig.Chain = chain
+							orig.Proof = proof
 						}
 					}
 				}
@@ -921,6 +999,54 @@ func (e *Engine) computeNonNeg(fns []*ssa.Function) {
 func (e *Engine) computeLenInvariants() {
 	e.fieldLen = map[*types.Var]int64{}
 	e.globalLen = map[*ssa.Global]int64{}
+	e.fieldMin = map[*types.Var]int64{}
+	type minfo struct {
+		k        int64
+		ok, seen bool
+	}
+	ints := map[*types.Var]*minfo{}
+	// integer package variables whose every store is a constant (pre-pass)
+	gmin := map[*ssa.Global]*minfo{}
+	for _, fn := range e.P.AllFuncs() {
+		for _, b := range fn.Blocks {
+			for _, in := range b.Instrs {
+				st, ok := in.(*ssa.Store)
+				if !ok || !isInteger(st.Val.Type()) {
+					continue
+				}
+				g, ok := st.Addr.(*ssa.Global)
+				if !ok {
+					continue
+				}
+				mi := gmin[g]
+				if mi == nil {
+					mi = &minfo{ok: true}
+					gmin[g] = mi
+				}
+				if k, isK := constInt(st.Val); isK {
+					if !mi.seen || k < mi.k {
+						mi.k = k
+					}
+					mi.seen = true
+				} else {
+					mi.ok = false
+				}
+			}
+		}
+	}
+	constOrGlobal := func(v ssa.Value) (int64, bool) {
+		if k, isK := constInt(v); isK {
+			return k, true
+		}
+		if u, ok := v.(*ssa.UnOp); ok && u.Op == token.MUL {
+			if g, ok := u.X.(*ssa.Global); ok {
+				if mi := gmin[g]; mi != nil && mi.ok && mi.seen {
+					return mi.k, true
+				}
+			}
+		}
+		return 0, false
+	}
 	type info struct {
 		k     int64
 		ok    bool
@@ -962,6 +1088,30 @@ func (e *Engine) computeLenInvariants() {
 						}
 					}
 				case *ssa.Store:
+					if isInteger(x.Val.Type()) {
+						if fa, ok := x.Addr.(*ssa.FieldAddr); ok {
+							if f := fieldOf(fa); f != nil {
+								mi := ints[f]
+								if mi == nil {
+									mi = &minfo{ok: true}
+									ints[f] = mi
+								}
+								if k, isK := constOrGlobal(x.Val); isK {
+									if !mi.seen || k < mi.k {
+										mi.k = k
+									}
+									mi.seen = true
+								} else {
+									mi.ok = false
+								}
+								if storesIn[fn] == nil {
+									storesIn[fn] = map[*types.Var]bool{}
+								}
+								storesIn[fn][f] = true
+							}
+						}
+						continue
+					}
 					if _, isSl := x.Val.Type().Underlying().(*types.Slice); !isSl {
 						continue
 					}
@@ -1036,6 +1186,116 @@ func (e *Engine) computeLenInvariants() {
 			e.globalLen[g] = i.k
 		}
 	}
+	// zero values of a struct type that no constructor touches: package variables without an
+	// initialiser, by-value fields / elements of other types, make() of slices and maps
+	zeroRisk := map[*types.Named]bool{}
+	why := ""
+	var markElem func(t types.Type, d int)
+	markElem = func(t types.Type, d int) {
+		if d > 4 || t == nil {
+			return
+		}
+		switch u := t.(type) {
+		case *types.Named:
+			if _, isS := u.Underlying().(*types.Struct); isS {
+				if os.Getenv("LALCHECK_PO_DEBUG") != "" && !zeroRisk[u] {
+					fmt.Println("ZERORISK", u.String(), why)
+				}
+				zeroRisk[u] = true
+			}
+		case *types.Slice:
+			markElem(u.Elem(), d+1)
+		case *types.Array:
+			markElem(u.Elem(), d+1)
+		case *types.Map:
+			markElem(u.Elem(), d+1)
+		}
+	}
+	wholeStored := map[*ssa.Global]bool{}
+	globalFieldStored := map[*ssa.Global]map[*types.Var]bool{}
+	structGlobals := map[*types.Named][]*ssa.Global{}
+	for _, fn := range e.P.AllFuncs() {
+		for _, b := range fn.Blocks {
+			for _, in := range b.Instrs {
+				switch x := in.(type) {
+				case *ssa.Store:
+					if g, ok := x.Addr.(*ssa.Global); ok {
+						wholeStored[g] = true
+					}
+					if fa, ok := x.Addr.(*ssa.FieldAddr); ok {
+						if g, ok := fa.X.(*ssa.Global); ok {
+							if f := fieldOf(fa); f != nil {
+								if globalFieldStored[g] == nil {
+									globalFieldStored[g] = map[*types.Var]bool{}
+								}
+								globalFieldStored[g][f] = true
+							}
+						}
+					}
+				case *ssa.MakeSlice:
+					why = "make in " + fn.String()
+					markElem(x.Type(), 0)
+				case *ssa.MakeMap:
+					markElem(x.Type(), 0)
+				case *ssa.Alloc:
+					// arrays / structs containing the type by value
+					if pt, ok := x.Type().(*types.Pointer); ok {
+						if _, isNamed := pt.Elem().(*types.Named); !isNamed {
+							markElem(pt.Elem(), 0)
+						}
+					}
+				}
+			}
+		}
+	}
+	for _, pk := range e.P.SSA.AllPackages() {
+		for _, m := range pk.Members {
+			switch x := m.(type) {
+			case *ssa.Global:
+				if pt, ok := x.Type().(*types.Pointer); ok && !wholeStored[x] {
+					if n, isN := pt.Elem().(*types.Named); isN {
+						if _, isS := n.Underlying().(*types.Struct); isS {
+							structGlobals[n] = append(structGlobals[n], x) // decided per field below
+							continue
+						}
+					}
+					why = "global " + x.String()
+					markElem(pt.Elem(), 0)
+				}
+			case *ssa.Type:
+				if st, ok := x.Type().Underlying().(*types.Struct); ok {
+					for i := 0; i < st.NumFields(); i++ {
+						why = "field of " + x.String()
+						markElem(st.Field(i).Type(), 0)
+					}
+				}
+			}
+		}
+	}
+	for f, mi := range ints {
+		if !mi.ok || !mi.seen {
+			continue
+		}
+		owner := ownerOf(f)
+		if owner == nil {
+			continue
+		}
+		k := mi.k
+		if zeroRisk[owner] && k > 0 {
+			k = 0
+		}
+		for _, g := range structGlobals[owner] {
+			if !globalFieldStored[g][f] && k > 0 {
+				k = 0
+			}
+		}
+		for _, fn := range allocs[owner] {
+			if !storesIn[fn][f] && k > 0 {
+				k = 0
+			}
+		}
+		e.fieldMin[f] = k
+	}
 }
 
 // strengthenToParams replaces every atom of g that is not rooted at a parameter of fn by a
@@ -1085,4 +1345,90 @@ func (e *Engine) strengthenToParams(c *fnCtx, g Ineq) (Ineq, bool) {
 		return g, true
 	}
 	return Ineq{out, g.Why + " (internal values replaced by their bounds)"}, len(out.C) > 0
+}
+
+// sameLoadExpr: two values that are loads through structurally identical address expressions
+// (same parameter / same SSA value at the root, same fields, same index values).
+func sameLoadExpr(a, b ssa.Value, d int) bool {
+	if a == b {
+		return true
+	}
+	if d > 8 {
+		return false
+	}
+	switch x := a.(type) {
+	case *ssa.UnOp:
+		y, ok := b.(*ssa.UnOp)
+		return ok && x.Op == y.Op && sameLoadExpr(x.X, y.X, d+1)
+	case *ssa.FieldAddr:
+		y, ok := b.(*ssa.FieldAddr)
+		return ok && x.Field == y.Field && sameLoadExpr(x.X, y.X, d+1)
+	case *ssa.Field:
+		y, ok := b.(*ssa.Field)
+		return ok && x.Field == y.Field && sameLoadExpr(x.X, y.X, d+1)
+	case *ssa.IndexAddr:
+		y, ok := b.(*ssa.IndexAddr)
+		if !ok || !sameLoadExpr(x.X, y.X, d+1) {
+			return false
+		}
+		if x.Index == y.Index {
+			return true
+		}
+		kx, okx := constInt(x.Index)
+		ky, oky := constInt(y.Index)
+		return okx && oky && kx == ky
+	case *ssa.Const:
+		y, ok := b.(*ssa.Const)
+		return ok && x.Value != nil && y.Value != nil && x.Value.ExactString() == y.Value.ExactString()
+	}
+	return false
+}
+
+// typeGuarded: the unchecked assertion x is dominated by the ok edge of a comma-ok assertion
+// of the same value expression to the same type, and the function stores nothing through an
+// address of the operand's element type in between (no store to the loaded field/element).
+func typeGuarded(fn *ssa.Function, x *ssa.TypeAssert) bool {
+	for _, g := range model.Guards(x.Block()) {
+		c, pol := model.StripNot(g.Cond, g.Polarity)
+		ex, ok := c.(*ssa.Extract)
+		if !ok || !pol || ex.Index != 1 {
+			continue
+		}
+		ta, ok := ex.Tuple.(*ssa.TypeAssert)
+		if !ok || !ta.CommaOk || !types.Identical(ta.AssertedType, x.AssertedType) {
+			continue
+		}
+		if !sameLoadExpr(ta.X, x.X, 0) {
+			continue
+		}
+		if ta.X == x.X {
+			return true
+		}
+		// re-loaded operand: no store of an interface of that type anywhere in the function
+		clean := true
+		for _, b := range fn.Blocks {
+			for _, in := range b.Instrs {
+				if st, isSt := in.(*ssa.Store); isSt && types.Identical(st.Val.Type(), x.X.Type()) {
+					// stores into a fresh local (the varargs array of a call) cannot alias the operand
+					root := st.Addr
+					for {
+						if fa, ok := root.(*ssa.FieldAddr); ok {
+							root = fa.X
+						} else if ia, ok := root.(*ssa.IndexAddr); ok {
+							root = ia.X
+						} else {
+							break
+						}
+					}
+					if _, isLocal := root.(*ssa.Alloc); !isLocal {
+						clean = false
+					}
+				}
+			}
+		}
+		if clean {
+			return true
+		}
+	}
+	return false
 }
